@@ -32,6 +32,9 @@ import MenpoModel.Core.C16Ext
 import MenpoModel.Core.C16Soft
 import MenpoModel.Core.C16PtsN
 import MenpoModel.Core.C16Pickle
+import MenpoModel.Props.C16Src
+import MenpoModel.Core.C16SrcFmt
+import MenpoModel.Props.C16Legacy
 
 namespace MenpoModel.Drive.C16
 open MenpoModel.Codec MenpoModel.C16
@@ -158,6 +161,60 @@ def fOutcome : Outcome → String
   | .overwriteError => "o"
   | .valueError => "v"
 
+/-! the translated export plumbing: the SPECIFICATIONS of `Core/C16SrcIO.lean` (proved equal to the translation of the
+source text by `GenProps/C16SrcIO.lean`) run on a model file system -/
+
+def xopOf (o : Op) : XOp :=
+  let fp := if o.asStr then Fp.str o.spelling else Fp.path o.spelling
+  let obj : ExObj := ⟨o.content, true, true⟩
+  match o.kind with
+  | .landmark => .landmark (exporterTable .landmark) obj fp o.userExt o.overwrite
+  | .image => .image (exporterTable .image) obj fp o.userExt o.overwrite
+  | .pickle => .pickle (exporterTable .pickle) obj fp o.overwrite 2
+  | .video => .video (exporterTable .video) obj fp o.overwrite 30 []
+
+def fXOutcome : Except Exc Unit → String
+  | .ok _ => "w"
+  | .error .overwriteError => "o"
+  | .error .valueError => "v"
+  | .error _ => "x"
+
+def fKey : Key → String
+  | .version => "version" | .groups => "groups" | .labels => "labels" | .landmarks => "landmarks"
+  | .points => "points" | .connectivity => "connectivity" | .label => "label" | .mask => "mask" | .point => "point"
+  | .user s => s
+
+/-- canonical text of a JSON value tree (keys in the order of the tree, numbers as exact rationals) -/
+partial def cJson : Json → String
+  | .null => "null"
+  | .num q => fmtRat q
+  | .str s => "\"" ++ s ++ "\""
+  | .arr xs => "[" ++ ",".intercalate (xs.map cJson) ++ "]"
+  | .obj kvs => "{" ++ ",".intercalate (kvs.map fun kv => fKey kv.1 ++ ":" ++ cJson kv.2) ++ "}"
+
+def fPLine : PLine → String
+  | .open_ => "{"
+  | .close => "}"
+  | .other => "H"
+  | .row toks => "r" ++ toString toks.length ++ " " ++ " ".intercalate (toks.map fORat)
+
+def pDType : P DType := do
+  let t ← tok
+  match t with
+  | "uint8" => pure .uint8 | "uint16" => pure .uint16 | "float32" => pure .float32 | "float64" => pure .float64
+  | "bool" => pure .bool | _ => pure .other
+
+def fDType : DType → String
+  | .uint8 => "uint8" | .uint16 => "uint16" | .float32 => "float32" | .float64 => "float64" | .bool => "bool"
+  | .other => "other"
+
+def fPix (r : Except Exc PixArr) : String := match r with
+  | .ok p => "ok " ++ fDType p.dtype ++ " " ++ fmtRats p.vals
+  | .error _ => "err"
+
+/-- a token that stands for the empty string -/
+def unE (s : String) : List Char := if s == "@E@" then [] else s.toList
+
 def step (toks : List String) : String :=
   match toks with
   | "ljson" :: r => match runP (pList pShape) r with
@@ -240,7 +297,115 @@ def step (toks : List String) : String :=
       let show_ := fun (res : List Outcome × FS) =>
         let listing := paths.filterMap fun p => (res.2 p).map fun v => fPath p ++ " " ++ toString v
         "".intercalate (res.1.map fOutcome) ++ " | " ++ " ".intercalate listing
-      "ok " ++ show_ (runHistoryCoded e c fs0 ops) ++ " || " ++ show_ (runHistory e c fs0 ops)
+      -- the same history through the specifications of the translated entry points
+      let xs := ops.map xopOf
+      let fsb0 : FSb := fun q => (prePaths.idxOf? q).map fun j => ⟨j + 1000, none, "", false, [], true⟩
+      let xpaths := (prePaths ++ xs.map fun x => targetKey e c x.fp).eraseDups
+      let xres := runX e c fsb0 xs
+      let xlisting := xpaths.filterMap fun p => (xres.2 p).map fun b => fPath p ++ " " ++ toString b.content
+      "ok " ++ show_ (runHistoryCoded e c fs0 ops) ++ " || " ++ show_ (runHistory e c fs0 ops) ++ " || " ++
+        "".intercalate (xres.1.map fXOutcome) ++ " | " ++ " ".intercalate xlisting
+    | none => "bad-op"
+  | "ljsondoc" :: r => match runP (pList pShape) r with
+    | some gs => match ljsonExporterSpec (.multi gs) with
+      | .ok j => "ok " ++ cJson j
+      | .error _ => "err"
+    | none => "bad-op"
+  | "v3parse" :: r => match runP (pList pShape) r with
+    | some gs => match parseV3Spec ((sortGroups gs).map fun g => (g.1, exportedGroup g.2)) with
+      | .ok res => "ok " ++ toString res.length ++ " " ++ " ".intercalate (res.map fImported)
+      | .error _ => "err"
+    | none => "bad-op"
+  | "v3doc" :: r =>
+    match runP (pList (do
+        let name ← tok
+        let rows ← pRows
+        let e ← pInt
+        let conn ← if e < 0 then pure none else do
+          let es ← pMany (do let a ← pNat; let b ← pNat; pure (a, b)) e.toNat
+          pure (some es)
+        let labels ← pList (do let l ← tok; let idx ← pList pNat; pure (⟨l, idx⟩ : JLabel))
+        pure (name, (⟨rows, conn, labels⟩ : JGroup)))) r with
+    | some d => match parseV3Spec d with
+      | .ok res => "ok " ++ toString res.length ++ " " ++ " ".intercalate (res.map fImported)
+      | .error .indexError => "err IndexError"
+      | .error .valueError => "err ValueError"
+      | .error _ => "err other"
+    | none => "bad-op"
+  | "v1doc" :: r =>
+    match runP (pList (do
+        let l ← tok
+        let rows ← pRows
+        let e ← pInt
+        let conn ← if e < 0 then pure none else do
+          let es ← pMany (do let a ← pNat; let b ← pNat; pure (a, b)) e.toNat
+          pure (some es)
+        pure (⟨l, rows, conn⟩ : JV1Group))) r with
+    | some d => match parseV1Spec d with
+      | .ok res => "ok " ++ toString res.length ++ " " ++ " ".intercalate (res.map fImported)
+      | .error .indexError => "err IndexError"
+      | .error .valueError => "err ValueError"
+      | .error _ => "err other"
+    | none => "bad-op"
+  | "v2doc" :: r =>
+    match runP (do
+        let rows ← pRows
+        let e ← pInt
+        let conn ← if e < 0 then pure none else do
+          let es ← pMany (do let a ← pNat; let b ← pNat; pure (a, b)) e.toNat
+          pure (some es)
+        let labels ← pList (do let l ← tok; let idx ← pList pNat; pure (⟨l, idx⟩ : JLabel))
+        pure (⟨rows, conn, labels⟩ : JGroup)) r with
+    | some g => match parseV2Spec g with
+      | .ok res => "ok " ++ toString res.length ++ " " ++ " ".intercalate (res.map fImported)
+      | .error .indexError => "err IndexError"
+      | .error .valueError => "err ValueError"
+      | .error _ => "err other"
+    | none => "bad-op"
+  | "ptsfile" :: r => match runP pRows r with
+    | some rows => match ptsExporterSpec rows with
+      | .ok lines =>
+        let back := match ptsImporterSpec lines true with
+          | .ok b => "ok " ++ toString b.length ++ " " ++ " ".intercalate (b.flatten.map fORat)
+          | .error _ => "err"
+        "ok " ++ " ".intercalate (lines.map fPLine) ++ " | " ++ back
+      | .error _ => "err"
+    | none => "bad-op"
+  | "pixnorm" :: r => match runP (do let d ← pDType; let e ← pBool; let vs ← pList pRat; pure (d, e, vs)) r with
+    | some (d, e, vs) => fPix (normalizeSpec ⟨d, vs⟩ e)
+    | none => "bad-op"
+  | "pixdenorm" :: r => match runP (do let d ← pDType; let o ← pDType; let vs ← pList pRat; pure (d, o, vs)) r with
+    | some (d, o, vs) => fPix (denormalizeSpec ⟨d, vs⟩ o)
+    | none => "bad-op"
+  | "ljsonver" :: r => match runP pRat r with
+    | some v => match ljsonDispatchSpec parserTable (.obj [(.version, .num v)]) with
+      | .ok nm => "ok " ++ nm
+      | .error _ => "err"
+    | none => "bad-op"
+  | "normsrc" :: cwd :: r => match runP (do let e ← pEnv; let sp ← tok; pure (e, sp)) r with
+    | some (e, sp) =>
+      let c := cwdOf cwd
+      "ok " ++ String.ofList (normPathSpec e c (.path sp.toList)).toStr ++ " " ++
+        String.ofList (normPathSpec e c (.str sp.toList)).toStr ++ " " ++
+        fPath (targetKey e c (.path sp.toList)) ++ " " ++ fPath ((normPathSpec e c (.str sp.toList)).key c)
+    | none => "bad-op"
+  | ["oslib", cwd, s] =>
+    let c := cwdOf cwd
+    let x := unE s
+    "ok " ++ String.ofList (osNormpath x) ++ " " ++ String.ofList (osAbspath c x) ++ " " ++ String.ofList (pathStr x)
+  | ["xdec", k, n] => match runP pKind [k] with
+    | some k =>
+      let p := Fp.path n.toList
+      let f := fun (r : Except Exc OStr) => match r with
+        | .ok (some e) => "ok " ++ String.ofList e
+        | .ok none => "ok -"
+        | .error _ => "err"
+      let g := fun (r : Except Exc (Option String)) => match r with
+        | .ok (some c) => c
+        | .ok none => "-"
+        | .error _ => "err"
+      f (parseAndValidateSpec p none (exporterTable k)) ++ " | " ++ g (importerForSpec p (importerTable k)) ++ " | " ++
+        String.ofList p.fileName ++ " | " ++ " ".intercalate ((possibleExts p).map fun e => String.ofList (e.getD []))
     | none => "bad-op"
   | _ => "bad-op"
 
